@@ -23,7 +23,10 @@ COORD = ['N~[Cu+2]~N', '[Cl-]~[Pt+2](~[Cl-])(~N)~N', 'O~[Mg+2]', 'c1ccccc1~[Cr]'
 STEREO = ['C[C@H](O)CC', 'C[C@@H](O)CC', 'C[C@](N)(O)CC', 'N[C@@H](C)C(=O)O', 'C/C=C/C', 'C/C=C\\C', 'C/C=C/C=C\\C', 'CC=[C@]=CC',
           'CC=[C@@]=CC', 'C/C=C=C=C/C', 'C/C=C=C=C\\C', 'C[C@H]1CC[C@@H](O)CC1', 'C[C@H](O)/C=C/[C@@H](N)C', 'OC(=O)[C@H](N)Cc1ccccc1',
           'C[C@H](O)C=[C@]=CC', 'F/C(Cl)=C(/Br)I', 'C[C@@H]1CCC[C@H](C)N1', 'O[C@H]1[C@H](O)[C@@H](O)[C@H](O)[C@@H](O)[C@@H]1O',
-          'C(/C=C/Cl)(=C\\C)C', '[2H][C@H](O)C', 'C[C@]([H])(O)CC', '[H]/C(C)=C/C', 'C/C=C/[H]']
+          'C(/C=C/Cl)(=C\\C)C', '[2H][C@H](O)C', 'C[C@]([H])(O)CC', '[H]/C(C)=C/C', 'C/C=C/[H]',
+          # centres that are stereogenic only once their neighbours carry labels (pseudo-asymmetric / dependent): the reader has to retry them
+          'C[C@H](O)[C@@H](O)[C@H](O)C', 'C[C@H](O)[C@H](O)[C@H](O)C', 'C[C@H](Cl)[C@H](O)[C@@H](Cl)C', 'C[C@H](O)[C@@H](F)[C@H](O)C',
+          'C[C@H]1C[C@@H](C)C[C@H](O)C1', 'C[C@H](O)[C@@H](O)[C@H](O)[C@@H](O)[C@H](O)C', 'C[C@@H](N)[C@H](C)[C@@H](N)C']
 
 
 # ---------------------------------------------------------------------------------------------------------------- plumbing
@@ -182,6 +185,20 @@ def check_mol_obj(O, m, ok2d, a, pairs=None):
             vs.append(V(f'rt:{pair}:{field}', f'rt:{pair}:{field}:{tag}',
                         f'{pair}: {field} not preserved for {a["smiles"]} ({a["form"]}): written {e!r}, read {g!r}', wit, {'expected': e, 'got': g}))
         vs.extend(text_violations(O, m, o, pair, wit))
+        if claimed and O.has_labels(m) and not vs and not O.stereo_snap(O.expected_after_read(m))['ct']:
+            # the readers' DEFAULT options (no cis/trans calculation): atom configuration of a molecule without any double-bond
+            # configuration does not depend on that option, so the same tetrahedral / allene labels have to come back
+            try:
+                od = list(reader(pair, text, calc_cis_trans=False))[0]
+                es, gs = O.stereo_snap(m), O.stereo_snap(od)
+                for k, nm in (('th', 'tetrahedral'), ('al', 'allene')):
+                    if es[k] != gs[k]:
+                        vs.append(V(f'rt:{pair}:default-options:{nm}', f'rt:{pair}:default-options:{nm}:{tag}',
+                                    f'{pair} (reader with default options): {nm} not preserved for {a["smiles"]} ({a["form"]}): written {es[k]!r}, '
+                                    f'read {gs[k]!r}', {**wit, 'reader_kw': {'calc_cis_trans': False}}, {'expected': es[k], 'got': gs[k]}))
+            except Exception as e:
+                vs.append(V(f'rt:{pair}:exc', f'rt:{pair}:exc-default:{where(e)}:{tag}', f'{pair} (default options): {where(e)} on a valid molecule '
+                            f'{a["smiles"]}', wit, repr(e)))
         if P()[pair][2] == 'sdf' and not vs:
             # single-record entry point mdl_mol on the MOL block
             from chython.files import mdl_mol
@@ -972,6 +989,7 @@ def bounded(run):
                'constitutional-symmetry oracle oracles.iso.orbits for the documented canonical-string gaps (RDKit-written part only)')
 
     only = getattr(run, 'only', None)      # development: bin/check C11 --only mols,rxns,meta,multi,index,testfiles,rdkit
+    only = set(only or ()) - {'P', 'T', 'F', 'H', 'B', 'X'}      # engine letters select parts of the check, not task kinds
     if only:
         tasks = [t for t in tasks if t[0].__name__[2:] in only]
     results = pmap(_dispatch, tasks)
